@@ -108,6 +108,7 @@ class Interp:
         self.g = {}
         self.calls = []                       # call trace: callee names in order of entry
         self.calls_active = []
+        self.call_order_open = False
         self.feat = set()
         self.counts = dict(calls=0, loops=0, reads=0, writes=0, arrayops=0)
         for g in P['globals']:
@@ -229,8 +230,13 @@ class Interp:
                     raise Undefined('nonbool')
                 el.merge(er)
                 return r, el
+            c0 = self.counts['calls']
             l, el = self.ev(e[2], fr)
+            c1 = self.counts['calls']
             r, er = self.ev(e[3], fr)
+            if c1 > c0 and self.counts['calls'] > c1:
+                # both operands performed calls: X leaves their order open, so the *sequence* of calls is not unique
+                self.call_order_open = True
             if isinstance(l, Arr) or isinstance(r, Arr):
                 raise KeyError('array operand')
             if conflict(el, er):
@@ -443,8 +449,12 @@ class Interp:
             a = c[1]
             if not isinstance(a, Arr):
                 raise KeyError('subscript of non-array ' + t[1])
+            c0 = self.counts['calls']
             i, ei = self.ev(t[2], fr)
+            c1 = self.counts['calls']
             v, ev_ = self.ev(st[2], fr)
+            if c1 > c0 and self.counts['calls'] > c1:
+                self.call_order_open = True
             if isinstance(v, Arr) or isinstance(i, Arr):
                 raise KeyError('array assigned')
             if conflict(ei, ev_):
